@@ -235,18 +235,27 @@ func (s *sys) Ops() []string {
 		wa = []string{"x", strings.ToLower(big)}
 		rd = []int{1, c + 1}
 	}
-	if s.curKnown {
-		for _, b := range wr {
-			if b == "-" && s.cur > int64(S) {
-				continue // a zero-length write past the end: left unspecified
-			}
-			ops = append(ops, "Write "+b)
+	// Write/Read are generated in every state. After a WriteAt the statement
+	// does not say where the cursor is; the call is then checked against the
+	// cursor that Seek(0,SeekCurrent) reports right after it (see resolveCursor).
+	if !s.curKnown && !s.thorough {
+		wr, rd = []string{"-", "YZ"}, []int{1, 2*c + 1} // quick: half the alphabet in these states
+	}
+	for _, b := range wr {
+		if b == "-" && s.curKnown && s.cur > int64(S) {
+			continue // a zero-length write past the end: left unspecified
 		}
-		for _, n := range rd {
-			ops = append(ops, fmt.Sprintf("Read %d", n))
-		}
+		ops = append(ops, "Write "+b)
+	}
+	for _, n := range rd {
+		ops = append(ops, fmt.Sprintf("Read %d", n))
 	}
 	for _, off := range nonneg(uniq(0, 1, S-1, S, S+1, S+3)) {
+		if off <= S && s.file.size <= 1000 {
+			// zero-length payload (no effect on content; past the end it is
+			// left unspecified like the zero-length Write)
+			ops = append(ops, fmt.Sprintf("WriteAt - %d", off))
+		}
 		for _, b := range wa {
 			ops = append(ops, fmt.Sprintf("WriteAt %s %d", b, off))
 		}
@@ -453,6 +462,9 @@ func (s *sys) Do(op string) (obs string, v *eng.Violation) {
 		if err != nil || n != len(b) {
 			return "err", s.viol("write-bad-result", "Write", fmt.Sprintf("Write(%q)=%d,%v", b, n, err)+hidden, append(feat, "error_class", errClass(err)))
 		}
+		if v := s.resolveCursor("Write", int64(n), feat, hidden); v != nil {
+			return "badcursor", v
+		}
 		if len(b) > 0 && !mod.VerifC10Snapshot(s.dm).HasBuf {
 			theRun.Add("execs_write_triggered_autoflush", 1)
 		}
@@ -556,6 +568,11 @@ func (s *sys) Do(op string) (obs string, v *eng.Violation) {
 		}
 		buf := bytes.Repeat([]byte{0xEE}, n)
 		got, err := s.dm.Read(buf)
+		if err == nil || err == io.EOF {
+			if v := s.resolveCursor("Read", int64(got), feat, hidden); v != nil {
+				return "badcursor", v
+			}
+		}
 		rem := S - s.cur
 		if rem < 0 {
 			rem = 0
@@ -613,6 +630,31 @@ func panicSite() string {
 		}
 	}
 	return "unknown"
+}
+
+// resolveCursor handles a cursor-relative call made while the model's cursor is
+// unspecified (after WriteAt): the cursor the modifier reports right after the
+// call, minus the bytes the call transferred, is taken as the position the
+// call was made at; the call's result is then judged against the file model at
+// that position like any other. This demands only self-consistency (what was
+// read/written is what lies just before the reported cursor), not a particular
+// cursor after WriteAt.
+func (s *sys) resolveCursor(op string, moved int64, feat []string, ctx string) *eng.Violation {
+	if s.curKnown {
+		return nil
+	}
+	theRun.Add("execs_cursor_resolved_after_"+op, 1)
+	tell, err := s.dm.Seek(0, io.SeekCurrent)
+	if err != nil || tell-moved < 0 {
+		return s.viol("cursor-mismatch", op, fmt.Sprintf("%s moved %d bytes with an unspecified cursor; Seek(0,SeekCurrent) right after it returned %d, %v", op, moved, tell, err)+ctx, append(append([]string{}, feat...), "error_class", errClass(err)))
+	}
+	s.cur, s.curKnown = tell-moved, true
+	if moved == 0 && tell > int64(len(s.data)) {
+		// nothing was transferred and the cursor lies past the end: the tell
+		// itself was a seek past the end (eager zero-extension, see Seek)
+		s.modelResize(tell)
+	}
+	return nil
 }
 
 func (s *sys) curStr() string {
